@@ -352,7 +352,7 @@ func (r *Run) followUps(steps []Step, c Cmd, what string) {
 	for _, v := range append(added, vl.V...) {
 		switch v.Oracle {
 		case "rejected-valid", "read-failed", "post-state", "failed-but-changed", "died-by-signal", "go-panic", "history-prefix", "whole-lines":
-			r.viol("C03", "unusable-after-crash", c.Op+"|"+v.Oracle, "after %s during %s the store misbehaves: %s", what, c.Shape(), v.Detail)
+			r.viol("C03", "unusable-after-crash", "@"+c.Op+"|"+v.Oracle, "after %s during %s the store misbehaves: %s", what, c.Shape(), v.Detail)
 		}
 	}
 }
